@@ -170,12 +170,12 @@ func Run(c *core.Ctx) core.FinishOpts {
 	// (3) typed grammar with edge literals
 	g := newGen(c.Rng("grammar"))
 	var grammarQ []string
-	for i := 0; i < c.Pick(350, 4000); i++ {
+	for i := 0; i < c.Pick(350, 3000); i++ {
 		q := g.query()
 		grammarQ = append(grammarQ, q)
 		add("grammar", "", q, nil, nil)
 	}
-	for i := 0; i < c.Pick(80, 700); i++ {
+	for i := 0; i < c.Pick(80, 500); i++ {
 		q := g.tvfQuery()
 		grammarQ = append(grammarQ, q)
 		add("tvf", "", q, nil, nil)
@@ -193,7 +193,7 @@ func Run(c *core.Ctx) core.FinishOpts {
 	for _, s := range seeds {
 		donors = append(donors, s.sql)
 	}
-	nMut := c.Pick(600, 6000)
+	nMut := c.Pick(600, 4000)
 	for i := 0; i < nMut; i++ {
 		var s *qcase
 		if i%4 == 0 && len(scen) > 0 {
@@ -208,7 +208,7 @@ func Run(c *core.Ctx) core.FinishOpts {
 
 	// (5) option mutation
 	orng := c.Rng("options")
-	for i := 0; i < c.Pick(250, 1200); i++ {
+	for i := 0; i < c.Pick(250, 800); i++ {
 		s := seeds[orng.Intn(len(seeds))]
 		sql := s.sql
 		var flags []string
@@ -250,8 +250,9 @@ func Run(c *core.Ctx) core.FinishOpts {
 	}
 	c.Note("hostile_input_files", len(hs))
 	c.Note("hostile_cases_total", len(hostileAll))
-	if c.Tier != "thorough" {
+	{
 		// every file with its first template in -o json, then a random sample of the rest
+		// (quick 400, thorough 4000 of the ~11500 file x template x mode cases)
 		var first, rest []*qcase
 		seen := map[string]bool{}
 		for _, q := range hostileAll {
@@ -263,8 +264,8 @@ func Run(c *core.Ctx) core.FinishOpts {
 			}
 		}
 		hrng.Shuffle(len(rest), func(a, b int) { rest[a], rest[b] = rest[b], rest[a] })
-		if len(rest) > 400 {
-			rest = rest[:400]
+		if n := c.Pick(400, 4000); len(rest) > n {
+			rest = rest[:n]
 		}
 		hostileAll = append(first, rest...)
 	}
@@ -450,7 +451,7 @@ func Run(c *core.Ctx) core.FinishOpts {
 		Rule: "cases = fixed probes + function/aggregate table sweep (each argument at each edge value) + typed-grammar queries + token mutations " +
 			"(delete, duplicate, swap, literal->edge value, token replace/insert, clause transplant) of all of those and of tests/scenarios/**/*.in + option mutation + hostile inputs x templates x modes; " +
 			"non-trivial = accepted by the SQL parser (typechecker, optimizer or executor ran) or crashed; distinct by (query text, flags)",
-		Floor:       c.Pick(900, 10000),
+		Floor:       c.Pick(900, 8000),
 		Assumptions: []string{"a Go panic or fatal error always shows as exit status 2 / signal with a trace on stderr (cli.Result.Panicked)", "children that hit the memory, time or output cap are inconclusive"},
 	}
 }
